@@ -22,9 +22,10 @@ PID = "C18"
 QS = "pennylane/core/qscript.py"
 EXTRA = [("pennylane/core/transforms/compile_pipeline.py", "CompilePipeline.__call_tapes", 1),
          ("pennylane/devices/qubit/sampling.py", "_group_measurements", 0)]
-# genuine writes found on the pinned tree (each reproduced natively, see the replay of the obligation): proposed finding ids
-FINDINGS = {("pennylane/transforms/optimization/merge_rotations.py", "merge_rotations"): "F28",
-            ("pennylane/transforms/optimization/commute_controlled.py", "commute_controlled"): "F29",
+# genuine writes found on the pinned tree (each reproduced natively); all four were repaired by fix: commits in /repo
+# (known_findings.json F30, F31, F7, F6 = status fixed, which suppresses nothing: the obligations are ordinary ones again)
+FINDINGS = {("pennylane/transforms/optimization/merge_rotations.py", "merge_rotations"): "F30",
+            ("pennylane/transforms/optimization/commute_controlled.py", "commute_controlled"): "F31",
             ("pennylane/core/transforms/compile_pipeline.py", "CompilePipeline.__call_tapes"): "F7",
             ("pennylane/devices/qubit/sampling.py", "_group_measurements"): "F6"}
 
